@@ -214,6 +214,7 @@ def run(ctx):
         cut = rng.randrange(1, max(2, len(s)))
         inputs.append((s[:cut].encode("utf-8", "ignore"), "gen-truncated"))
 
+    retried_hangs = []
     full_for = len(corpus()) + 7      # corpus and the hand-written inputs get every scenario; the others a sample (quick tier)
     evaluations = 0
     classes = {}
@@ -286,6 +287,15 @@ def run(ctx):
             tr = os.path.join(root, "trace-%d" % n)
             cmd = ["strace", "-f", "-y", "-o", tr, "-e", "trace=" + TRACE] + inj + prefix + [FALCO, "fmt", "-w", p]
             rc2, o2, e2 = sh(cmd)
+            if rc2 == "hang":
+                # a stall of the traced process under load has been seen once in ~6000 runs and never again on the
+                # same input: a hang is reported only when it repeats
+                retried_hangs.append("%s/%s" % (label, name))
+                os.chmod(case.d, 0o755)
+                p = case.fresh(mode=mode0)
+                if dmode:
+                    os.chmod(case.d, dmode)
+                rc2, o2, e2 = sh(cmd, timeout=90)
             os.chmod(case.d, 0o755)
             evaluations += 1
             scen_count[name] = scen_count.get(name, 0) + 1
@@ -376,7 +386,7 @@ def run(ctx):
         "inputs": len(inputs), "input_classes": classes,
         "scenarios": dict(sorted(scen_count.items())), "runs_with_faults": len(mreqs),
         "ops_agree": agree_ops, "state_agree": agree_state,
-        "effect_free_order_differences": sorted(order_notes)[:5], "kill_injections_that_missed": misfires,
+        "effect_free_order_differences": sorted(order_notes)[:5], "kill_injections_that_missed": misfires, "runs_retried_after_a_stall": retried_hangs,
         "generator_stats": dict(sorted(g.stats.items())[:40]),
     })
     return ctx.finish(
